@@ -743,10 +743,10 @@ def check(run: Run):
     env = os.environ.get
     if tier == "quick":
         plan = [  # (stage, cfg, level, edge rate, window rate)
-            ("views", "MC_Annotation_quick.cfg", "seq", float(env("VERIF_C04_EDGES", "0.06")), float(env("VERIF_C04_WINDOWS", "0.06"))),
-            ("aln", "MC_Annotation_aln_quick.cfg", "aln", float(env("VERIF_C04_EDGES", "0.06")), 0),
+            ("views", "MC_Annotation_quick.cfg", "seq", float(env("VERIF_C04_EDGES", "0.04")), float(env("VERIF_C04_WINDOWS", "0.04"))),
+            ("aln", "MC_Annotation_aln_quick.cfg", "aln", float(env("VERIF_C04_EDGES", "0.04")), 0),
             # every interleaving of 3 calls (slice / rc / copy / degap / to_rna / add_feature on any object made so far)
-            ("hist", "MC_Annotation_hist_quick.cfg", "hist", float(env("VERIF_C04_HIST", "0.25")), 0),
+            ("hist", "MC_Annotation_hist_quick.cfg", "hist", float(env("VERIF_C04_HIST", "0.15")), 0),
             # look-alike sequence names / feature names / biotypes in one shared db: a seeded sample of the queries of every view
             ("names", "MC_Annotation_names.cfg", "names", 0, float(env("VERIF_C04_NAMES", "0.25"))),
             # strided views seq[a:b:k], k = 1..3, rc of them, strided slices of slices: every state, a seeded sample of the other histories
@@ -766,7 +766,7 @@ def check(run: Run):
             ("stride", "MC_Annotation_stride_thorough.cfg", "stride", float(env("VERIF_C04_STRIDE", "0.03")), 0),
         ]
     # share of the states on which the feature algebra / masking is exercised as well
-    alg_rates = {"views": float(env("VERIF_C04_ALGEBRA", "0.12" if tier == "quick" else "0.05")), "small": float(env("VERIF_C04_ALGEBRA", "0.5")),
+    alg_rates = {"views": float(env("VERIF_C04_ALGEBRA", "0.08" if tier == "quick" else "0.05")), "small": float(env("VERIF_C04_ALGEBRA", "0.5")),
                  "aln": float(env("VERIF_C04_ALGEBRA", "0.25" if tier == "quick" else "0.15"))}
     only = env("VERIF_C04_STAGES")  # debugging aid
     if only:
@@ -801,14 +801,14 @@ def check(run: Run):
         "Alignment level: every placement of a row of U residues in L columns x 2 layouts of a second row x every 1-/2-span feature "
         "x strand x every view aln[a:b] / rc(): alignment feature columns, rows of its slice, projection onto the other row; the same spans "
         "as an alignment-level feature. "
-        "quick: P=5 / U=3,L=4, seeded 6% sample of the non-chain transitions and windows; thorough: P=5 with every transition and "
+        "quick: P=5 / U=3,L=4, seeded 4% sample of the non-chain transitions and windows; thorough: P=5 with every transition and "
         "window, P=6 with MaxCopy=1 (5% of non-chain transitions, 7% of windows), U=4,L=6 (10% of non-chain transitions). "
         "Feature algebra (Algebra record of every state): as_one_span, shadow, without_lost_spans, get_slice(complete=True), union, "
-        "with_masked_annotations (3 biotype sets x shadow) on the same states (quick 12% of them, thorough half of P=5 and 5% of P=6); "
+        "with_masked_annotations (3 biotype sets x shadow) on the same states (quick 8% of them, thorough half of P=5 and 5% of P=6); "
         "alignments: as_one_span / get_slice(allow_gaps=True) and Alignment.with_masked_annotations. "
         "Order of events (AnnotationHistory.tla): every history of MaxDepth calls, each on any object made so far (slice head/tail/mid, "
         "rc, copy, degap, to_rna, add_feature of the first position / of the rest on either strand, at most 2 adds), P=5; after each "
-        "history every object is asked what it sees (quick: depth 3, 25% of the histories; thorough: depth 4, 7%). "
+        "history every object is asked what it sees (quick: depth 3, 15% of the histories; thorough: depth 4, 7%). "
         "Identity of records (AnnotationNames.tla): 8 universes (one family of look-alike strings at a time for sequence names / "
         "feature names / biotypes) x every view [a:b] / rc of 3 sequences of length 4 sharing one db x sequence x filter (none, name=, "
         "biotype=) x partial, on an old-style Alignment, old / new Sequences and members of a new-style collection (quick: 25% of the queries). "
